@@ -64,6 +64,8 @@ def nontrivial(request, impl):
     if proto == "expr":
         # non-trivial: the output tree differs from the input tree (some parenthesis decision taken)
         return parts[3] != parts[4]
+    if proto == "tyfmt":
+        return parts[1] != parts[2]
     return True
 
 
@@ -119,8 +121,8 @@ PIPE_RULE = ("ring 3 (closed set): the repository's 367 test inputs (+ committed
 PROPS["C01"] = {
     "lean_modules": ["StyluaModel.Props.C01"],
     "theorem_prefix": "C01_",
-    "required_theorems": ["C01_binops_spaced", "C01_binop_table_complete", "C01_unops_shape", "C01_no_minus_minus", "C01_expr_reparses", "C01_expr_parses_back", "C01_faithful_parses", "C01_parser_answers_right", "C01_string_token"],
-    "hx": [["c05"], ["pipe"], ["slots"]],
+    "required_theorems": ["C01_binops_spaced", "C01_binop_table_complete", "C01_unops_shape", "C01_no_minus_minus", "C01_expr_reparses", "C01_expr_parses_back", "C01_faithful_parses", "C01_parser_answers_right", "C01_type_wellformed", "C01_string_token"],
+    "hx": [["c05"], ["c02t"], ["pipe"], ["slots"]],
     "level": "proof",
     "level_text": "Proof, partial: theorems cover the expression-level edit closure (every parenthesis edit yields a tree that re-parses to itself, for all oracles), the `- -` clause, string tokens staying one token, and the operator-text table regenerated from the compiled code on every run. The statement-level grammar and the claim that every separator emitted by the ~150 trivia sites is safe are carried by the correspondence and the closed-set re-parse oracle only.",
     "level_note": "Trusted: Lean kernel; ParenRule/StrLit models tied by correspondence; Spec/Parser.lean (mirror of full_moon's expression parser) compared with full_moon on every run; OpTables observed from the compiled formatter by the translator; the closed-set oracle uses full_moon itself as the parser the property names.",
@@ -133,8 +135,8 @@ PROPS["C01"] = {
 PROPS["C02"] = {
     "lean_modules": ["StyluaModel.Props.C02"],
     "theorem_prefix": "C02_",
-    "required_theorems": ["C02_expr", "C02_expr_parsed", "C02_expr_at", "C02_cond", "C02_string_51", "C02_string_52", "C02_number"],
-    "hx": [["c05"], ["pipe"], ["slots"]],
+    "required_theorems": ["C02_type_meaning", "C02_type_reparses", "C02_type_entry", "C02_type_fresh_context_violates", "C02_expr", "C02_expr_parsed", "C02_expr_at", "C02_cond", "C02_string_51", "C02_string_52", "C02_number"],
+    "hx": [["c05"], ["c02t"], ["pipe"], ["slots"]],
     "level": "proof",
     "level_text": "Proof, partial: theorems state that every modelled edit kind preserves meaning for inputs of any size and every layout oracle — parentheses (expression trees, truncation), condition parentheses, string literal values (5.1 and 5.2+ readings), number spelling. Statement order, call sugar and table separators are covered by the independent normal-form oracle on the closed corpus set and by the correspondence, not yet by theorems.",
     "level_note": "Trusted: Lean kernel; models tied by correspondence (expr/strlit protocols); the harness normal form N (harness/src/nf.rs) is an independent checker over full_moon ASTs that never consults StyLua's own verify_ast.",
@@ -239,13 +241,13 @@ PROPS["C11"] = {
 PROPS["C06"] = {
     "lean_modules": ["StyluaModel.Props.C06"],
     "theorem_prefix": "C06_",
-    "required_theorems": ["C06_strlit", "C06_number", "C06_semicolon", "C06_sort", "C06_comment_text", "C06_paren_idem", "C06_paren_idem_faithful", "C06_paren_not_idempotent"],
-    "hx": [["pipe"], ["slots"], ["c05"]],
+    "required_theorems": ["C06_strlit", "C06_number", "C06_semicolon", "C06_sort", "C06_comment_text", "C06_paren_idem", "C06_paren_idem_faithful", "C06_paren_not_idempotent", "C06_table_multi_stable", "C06_table_single_stable", "C06_table_growth_witness"],
+    "hx": [["pipe"], ["slots"], ["c05"], ["c06t"]],
     "level": "proof",
     "level_text": "Proof, partial — the property the technique serves least: idempotence theorems for every decision mechanism that has a model (string and number rewriting, semicolon decisions, sorted require groups, comment text), and a proven counterexample for the parenthesis rule (`(- -f())`, found by evaluating the model). Whether the second pass takes the same layout path as the first is a fact about Shape arithmetic and ~40 heuristics that are not modelled: it is checked on the closed sets only (corpus x 79 configurations, width sweep 1..130 of catalogue one-liners, comment-slot enumeration), whose unchanged-tree failures are listed exactly.",
     "level_note": "Trusted: Lean kernel; models tied by their own correspondences (C04, C05, C08, C12, C03 protocols); byte comparison format(format(p)) = format(p) on the real library.",
     "technique": "Lean 4 idempotence proofs per mechanism + byte-for-byte idempotence oracle on closed sets incl. width sweeps",
-    "rule": PIPE_RULE + SLOT_RULE + "ring 2: `expr` correspondence (C05).",
+    "rule": PIPE_RULE + SLOT_RULE + "ring 2: `expr` correspondence (C05); `tabledec` (the table layout decision measured on the input AST vs observed in the output, random spacings x widths around the threshold).",
     "trusted_base": ["layout-path stability is not modelled"],
     "assumptions": [],
 }
@@ -343,7 +345,7 @@ PROPS["C15"] = {
 PROPS["C17"] = {
     "lean_modules": ["StyluaModel.Props.C17"],
     "theorem_prefix": "C17_",
-    "required_theorems": ["C17_formatted", "C17_parse_error", "C17_passthrough", "C17_no_writes"],
+    "required_theorems": ["C17_formatted", "C17_parse_error", "C17_passthrough", "C17_no_writes", "C17_ignore_total", "C17_ignore_pinned_panics", "C17_ignore_consulted"],
     "py": [cli.c17],
     "needs_cli": True,
     "level": "proof",
